@@ -670,6 +670,25 @@ func c01AnnoFile(r *Rng) (string, string) {
 	cls := func(i int) string { return fmt.Sprintf("Cls%d", i) }
 	types := []string{"number", "string", "boolean", "any", "table", "nil", "fun()", "fun(a:number):string", "table<string, number>", "number[]", "Cls0", "Cls1", "Cls0[]",
 		"table<string, Cls1>", "AliasA", "AliasB", "AliasA[]", "table<number, AliasB>", "(number|string)[]", "fun(x:Cls0, ...):Cls1, Cls0", "Missing", "string | number | nil", "\"lit\" | 'x'"}
+	if r.Chance(1, 3) {
+		// string constants as types: every short content, quote characters as the content, unclosed and mixed quotes; also as the
+		// candidate lines of an alias
+		consts := []string{`'"'`, `"'"`, `''`, `""`, `'`, `"`, `'a`, `"a`, `a'`, `'''`, `"""`, `'"`, `"'`, `'\\'`, `"\\"`, `'|'`, `'a b'`, `"a'b"`, `'a"b'`, `' '`, `'a'`, `"ab"`, `'@'`, `'-'`, `'--'`, `'é'`}
+		for k := r.Range(3, 8); k > 0; k-- {
+			t := r.Pick(consts)
+			for j := r.Intn(3); j > 0; j-- {
+				t += r.Pick([]string{" | ", "|", " |"}) + r.Pick(consts)
+			}
+			types = append(types, t)
+		}
+		sb.WriteString("---@alias QuoteAlias " + r.Pick(consts) + " | " + r.Pick(consts) + "\n")
+		sb.WriteString("---@alias CandAlias\n")
+		for k := r.Range(1, 5); k > 0; k-- {
+			sb.WriteString("---| " + r.Pick(consts) + r.Pick([]string{"", " # note", " -- note"}) + "\n")
+		}
+		sb.WriteString("---@param q QuoteAlias\n---@param c CandAlias | " + r.Pick(consts) + "\n---@return " + r.Pick(consts) + "\nfunction quoted(q, c)\n  return q\nend\nprint(quoted(1, 2))\n")
+		label += "+string-constants"
+	}
 	switch r.Intn(8) {
 	case 0:
 		sb.WriteString("---@alias AliasA AliasB\n---@alias AliasB AliasA\n")
